@@ -710,7 +710,10 @@ func ruleMemoKeyIn(label string, roots ...string) ruleFn {
 			// stripped off it, say) answers the next question about the stripped form with the
 			// answer to this one. Judged where both accesses are made directly in this function.
 			if p.inner == nil && p.k != nil {
-				direct, same := 0, false
+				direct, same := 0, true
+				if _, isStruct := p.k.Type().Underlying().(*types.Struct); isStruct {
+					same = true // two literals of a struct-typed key are equal values the rule cannot compare
+				}
 				for _, g := range accs {
 					if g.fn != fn || g.got == nil || g.inner != nil || g.k == nil || !sameMemoAcc(g, p) {
 						continue
@@ -720,9 +723,14 @@ func ruleMemoKeyIn(label string, roots ...string) ruleFn {
 					if !instrDominates(g.at, p.at) {
 						continue
 					}
+					if _, isStruct := g.k.Type().Underlying().(*types.Struct); isStruct {
+						continue
+					}
 					direct++
-					if sameValue(unwrap(g.k), unwrap(p.k)) {
-						same = true
+					// every look-up the put follows: a second look-up under the stripped key in
+					// front of the put does not make the first one agree
+					if !sameValue(unwrap(g.k), unwrap(p.k)) {
+						same = false
 					}
 				}
 				if direct > 0 {
@@ -2455,6 +2463,73 @@ func ruleNilIntoDerefField(r *Run) {
 			}
 		}
 	}
+	// a field that some function of the module compares with nil is one the code knows to be
+	// nil-able (`if req.OperationName != nil { *req.OperationName }` is two loads): not judged
+	for _, fn := range r.P.Funcs {
+		if !inModule(fn) {
+			continue
+		}
+		for _, ins := range allInstrs(fn) {
+			b, ok := ins.(*ssa.BinOp)
+			if !ok || (b.Op != token.EQL && b.Op != token.NEQ) || !(isNil(b.X) || isNil(b.Y)) {
+				continue
+			}
+			for _, side := range []ssa.Value{b.X, b.Y} {
+				if ld, ok := side.(*ssa.UnOp); ok && ld.Op == token.MUL {
+					if fa, ok := ld.X.(*ssa.FieldAddr); ok {
+						delete(deref, fieldOf(fa))
+					}
+				}
+			}
+		}
+	}
+	// nilFrom: where a nil comes from when v is a nil constant, a phi with a nil edge, or a
+	// parameter for which a call site (up to three levels up) hands in one
+	var nilFrom func(fn *ssa.Function, v ssa.Value, depth int) string
+	nilFrom = func(fn *ssa.Function, v ssa.Value, depth int) string {
+		switch x := v.(type) {
+		case *ssa.Const:
+			if x.IsNil() {
+				return "a nil constant"
+			}
+		case *ssa.Phi:
+			// `var op *T; if … { op = … }; if op == nil { return }`: a value the function itself
+			// compares with nil is one it looks at before it stores it
+			if refs := x.Referrers(); refs != nil {
+				for _, u := range *refs {
+					if b, ok := u.(*ssa.BinOp); ok && (b.Op == token.EQL || b.Op == token.NEQ) && (isNil(b.X) || isNil(b.Y)) {
+						return ""
+					}
+				}
+			}
+			for _, e := range x.Edges {
+				if isNil(e) {
+					return "a value that is nil on one branch (" + r.P.pos(x.Pos()) + ")"
+				}
+			}
+		case *ssa.Parameter:
+			if depth > 3 {
+				return ""
+			}
+			for i, q := range fn.Params {
+				if q != x {
+					continue
+				}
+				for _, e := range r.P.CG.In[origin(fn)] {
+					if e.Site == nil || e.Caller == nil {
+						continue
+					}
+					a := e.Site.Common().Args
+					if i < len(a) {
+						if w := nilFrom(e.Caller, a[i], depth+1); w != "" {
+							return "the parameter " + x.Name() + ", for which " + fnName(e.Caller) + " (" + r.P.pos(e.Site.Pos()) + ") hands in " + w
+						}
+					}
+				}
+			}
+		}
+		return ""
+	}
 	n := 0
 	for _, fn := range r.P.Funcs {
 		if !inModule(fn) {
@@ -2469,6 +2544,11 @@ func ruleNilIntoDerefField(r *Run) {
 			if !ok {
 				continue
 			}
+			// the zero value spelled out in a literal of an object made here is what leaving the
+			// field out would give: which objects reach the reader is not this rule's matter
+			if _, fresh := fa.X.(*ssa.Alloc); fresh && isNil(st.Val) {
+				continue
+			}
 			f := fieldOf(fa)
 			where, hot := deref[f]
 			if f == nil || !hot {
@@ -2476,24 +2556,8 @@ func ruleNilIntoDerefField(r *Run) {
 			}
 			n++
 			bad := ""
-			v := st.Val
-			if isNil(v) {
-				bad = "a nil constant is stored"
-			} else if par, ok := v.(*ssa.Parameter); ok {
-				for i, q := range fn.Params {
-					if q != par {
-						continue
-					}
-					for _, e := range r.P.CG.In[origin(fn)] {
-						if e.Site == nil {
-							continue
-						}
-						a := e.Site.Common().Args
-						if i < len(a) && isNil(a[i]) {
-							bad = "the parameter " + par.Name() + " is stored, and " + fnName(e.Caller) + " (" + r.P.pos(e.Site.Pos()) + ") hands in nil for it"
-						}
-					}
-				}
+			if w := nilFrom(fn, st.Val, 0); w != "" {
+				bad = w + " is stored"
 			}
 			r.Check(bad == "", rule, fnName(fn), "store into "+f.Name(), r.P.pos(st.Pos()),
 				"the field is dereferenced without a test in "+where+"; what is stored here is not a nil constant",
